@@ -393,6 +393,68 @@ func c05repeated(c *engine.Ctx, only string) {
 	}
 }
 
+// c05failedDecl: a declaration that fails declares nothing. For every kind of declaration x failing body x prior
+// state of the name (unbound, a macro, a function), the follow-ups on that interpreter must give exactly what they
+// give on an interpreter on which the failing declaration was never evaluated.
+func c05failedDecl(c *engine.Ctx, only string) {
+	decls := [][2]string{
+		{"defmac-let", "(defmac NAME [x] (let [y] ^(* 2 ~x)))"}, {"defmac-empty-let", "(defmac NAME [x] (let))"}, {"defmac-bad-args", "(defmac NAME [x x2 (] 1)"},
+		{"defn-empty-let", "(defn NAME [x] (let))"}, {"defn-bad-cond", "(defn NAME [x] (cond 1))"}, {"def-failing-value", "(def NAME (fail 0))"},
+		{"def-unbound-value", "(def NAME (undefinedfn 1))"}, {"func-empty-let", "(func NAME [a:int64] [r:int64] (let))"}, {"fn-bound", "(def NAME (fn [x] (let)))"},
+		{"package-body", "(def NAME (package \"pp\" { (let) }))"}, {"set-failing", "(set NAME (fail 0))"}, {"mdef", "(mdef NAME other (list 1))"},
+	}
+	priors := [][2]string{{"unbound", ""}, {"macro", "(defmac NAME [x] ^(+ ~x ~x))"}, {"function", "(defn NAME [x] (+ x 100))"}, {"value", "(def NAME 55)"}}
+	follow := [][2]string{{"call", "(NAME 4)"}, {"expand", "(str (macexpand (NAME 4)))"}, {"value", "(str NAME)"}, {"defn-then-call", "(defn NAME [x] (* 3 x)) (NAME 2)"},
+		{"defmac-then-call", "(defmac NAME [x] ^(- ~x 1)) (NAME 2)"}, {"def-then-read", "(def NAME 9) NAME"}, {"let-local", "(let [NAME 3] (+ NAME 1))"}}
+	for _, d := range decls {
+		for _, p := range priors {
+			for _, f := range follow {
+				w := "DECL|" + d[0] + "|" + p[0] + "|" + f[0]
+				if !(only == "" && c.Mine() || only == w) {
+					continue
+				}
+				c.Begin(w)
+				name := "zq" // one name per case: macros are registered per interpreter, nothing is shared
+				sub := func(t string) string { return strings.ReplaceAll(t, "NAME", name) }
+				run := func(withDecl bool) (string, bool) {
+					tr := zy.NewTraced(false)
+					defer tr.Env.Close()
+					zygo.VerifSetStepBudget(200000)
+					tr.Run(layout(c02prelude(), 0))
+					if p[1] != "" {
+						tr.Run(sub(p[1]))
+					}
+					failed := true
+					if withDecl {
+						r := tr.Run(sub(d[1]))
+						failed = r.Err != "" && r.Panic == ""
+						if r.Panic != "" {
+							c.Violation("panic", "C05/failed-decl-panic/"+d[0], w, r.Panic)
+						}
+						tr.Env.Clear()
+					}
+					r := tr.Run(sub(f[1]))
+					tr.Env.Clear()
+					r2 := tr.Run("(+ 1 2)")
+					return r.String() + " ; then (+ 1 2) = " + r2.Short(), failed
+				}
+				with, failed := run(true)
+				if !failed {
+					c.Count("failed_decl_did_not_fail_not_judged", 1)
+					c.Outcome("decl|" + d[0] + "|ok")
+					continue
+				}
+				without, _ := run(false)
+				if with != without {
+					c.Violation("followup", "C05/failed-decl/"+d[0]+"/"+p[0], w, fmt.Sprintf("prior state %q, then the failing %s, then %s gives %s; without the failing declaration it gives %s", sub(p[1]), sub(d[1]), sub(f[1]), with, without))
+				}
+				c.Count("failed_decl_cases", 1)
+				c.Outcome("decl|" + d[0] + "|" + p[0] + "|" + f[0] + "|" + clipS(with, 40))
+			}
+		}
+	}
+}
+
 func c05staticCase(c *engine.Ctx, w, text, key string) {
 	c.Begin(w)
 	tr := zy.NewTraced(false)
@@ -434,7 +496,7 @@ func init() {
 		Level: "fault_enumeration",
 		Rule: "fault points = calls of the host function h inside programs of the C02 grammar (+ lazy forcing, deep/tail recursion, loops in functions): default run counts N calls, then every k<=N x {returned error, Go panic in the builtin} is re-run on a fresh interpreter " +
 			"(thorough: + a second failing evaluation during the follow-ups); oracle = reference evaluator run with the same fault: result, trace, stacks at rest, and a 19-item follow-up battery; " +
-			"plus statically placed failures: 14 malformed forms in every hole of every context, 23 unparsable texts (8 after complete forms, 15 left unfinished two or more brackets deep), and 11 failing evaluations made by the host through the Go API (SourceStream, Apply, LoadString+Run) followed by a 9-item battery; 14 failing forms each repeated 3..2000 times on one interpreter, then a 10-item battery (nothing accumulates across failures); distinct_nontrivial = distinct (shape, fault, trace, battery) tuples with k>0",
+			"plus statically placed failures: 14 malformed forms in every hole of every context, 23 unparsable texts (8 after complete forms, 15 left unfinished two or more brackets deep), and 11 failing evaluations made by the host through the Go API (SourceStream, Apply, LoadString+Run) followed by a 9-item battery; 14 failing forms each repeated 3..2000 times on one interpreter, then a 10-item battery (nothing accumulates across failures); 12 failing declarations x 4 prior states of the name x 7 follow-ups, judged against an interpreter that never saw the failing declaration (a failed declaration declares nothing); distinct_nontrivial = distinct (shape, fault, trace, battery) tuples with k>0",
 		Assumptions: []string{"R1 keeps the global effects completed before the fault, which is the specification of 'definitions completed before the failure intact'",
 			"for statically placed failures only follow-ups independent of partial execution are judged"},
 		Run: func(c *engine.Ctx) {
@@ -464,8 +526,16 @@ func init() {
 			c05static(c, all)
 			c05hostCases(c, "")
 			c05repeated(c, "")
+			c05failedDecl(c, "")
 		},
 		Replay: func(c *engine.Ctx, w string) {
+			if strings.HasPrefix(w, "DECL|") {
+				c05failedDecl(c, w)
+				for i := range c.Viol {
+					c.Viol[i].Key = "*"
+				}
+				return
+			}
 			if strings.HasPrefix(w, "REP|") {
 				c05repeated(c, w)
 				for i := range c.Viol {
